@@ -112,3 +112,52 @@ PROPS["C14"] = {
     "min_nontrivial": {"quick": 1500, "thorough": 1500},
     "assumptions": ["model::compare is the order used to judge sortedness"],
 }
+
+PROPS["C20"] = {
+    "shards": {"quick": 16, "thorough": 16},
+    "offline": _lazy("c20"),
+    "rule": ("doubles: +-64 ulps around 1e-4 and 1e15, +-8 ulps around every 10^k (k=-320..308), 15-digit carry patterns (9.99999999999999.., ..9995) at every decade, powers of two, "
+             "subnormals, f64::MAX, plus seeded random doubles (uniform bit patterns, display-range magnitudes, few-digit decimals, integers, values just below powers of ten). "
+             "Each is displayed by format_display_number and by format(\"{}\", x) (must agree); Python parses the text with its own numeral grammar and compares exactly "
+             "(Fraction) against the double: error < one unit of the 15th significant digit, sign, specials by name, integers < 2^53 exact. "
+             "non-trivial = not an integer below 1e15; distinct by bit pattern"),
+    "min_nontrivial": {"quick": 20000, "thorough": 20000},
+    "assumptions": ["CPython float/Fraction conversions are exact", "the probe's JSONL log faithfully carries the text produced by the real code"],
+}
+
+PROPS["C16"] = {
+    "shards": {"quick": 16, "thorough": 16},
+    "offline": _lazy("c16"),
+    "rule": ("doubles (decade / power-of-two / threshold boundaries +- ulps, 15-digit carry patterns, random bit patterns) pushed through five textual paths: P1 to_string->to_number, "
+             "P2 JSON out->in, P3 captured in a closure->emitted source->reloaded->called, P4 literal in a function body->emitted->reloaded, P5 literal statement->formatter->parser; "
+             "bits must come back identical (judged in process) and the text must denote exactly that double (judged offline by CPython float()). Literals: generated spellings "
+             "(decimal up to 40 digits, fraction, scientific with signed exponents, leading dot, _ separators, 0x / 0b with separators, halfway cases near 2^53, long expansions, "
+             "subnormal / overflow thresholds, radix literals above i64) are evaluated by the real parser; the exact value is computed offline from the spelling alone and must be the "
+             "correctly rounded double. non-trivial = not an integer below 2^53 (doubles); every literal counts"),
+    "min_nontrivial": {"quick": 5000, "thorough": 5000},
+    "assumptions": ["CPython's float(str) and float(int) are correctly rounded (ties to even)", "spellings outside the documented grammar (explicit + sign) carry no claim"],
+}
+PROPS["C15"] = {
+    "shards": {"quick": 8, "thorough": 16},
+    "offline": _lazy("c15"),
+    "rule": ("number lists of length 1..50 in seven regimes (small integers, dyadic, decimal fractions, mixed magnitudes, with infinities, duplicates incl. +-0, tiny and huge); "
+             "sum/prod/avg/min/max/median are called as f(list), f(...list), f(a, b, ...) and on a permutation; conventions must agree bit for bit (in process); offline, exact rational "
+             "arithmetic gives the reference: |sum-exact| <= n*eps*sum|x|, prod within (n+1)*2eps relative when no over/underflow is possible, avg = sum/n, min/max elements bounding "
+             "all, median = middle order statistic or mean of the two, percentile on a grid: element of the list, monotone in p, 0->min, 100->max, permutation invariant. "
+             "non-trivial = length >= 2"),
+    "min_nontrivial": {"quick": 1000, "thorough": 1000},
+    "assumptions": ["NaN is outside the quantifier"],
+}
+PROPS["C06"] = {
+    "shards": {"quick": 8, "thorough": 16},
+    "needs_cli": True,
+    "offline": _lazy("c06"),
+    "rule": ("(1) random data values (depth <= 5; doubles from boundaries and random bits, strings over all scalar values incl. quotes, backslashes, controls, U+2028, astral; odd keys) "
+             "built directly in the heap, written by the real output path and (a) parsed by Python's json and compared with the tagged tree (bits / code points / unordered keys), "
+             "(b) read back by the real input path and compared bit-exactly and with .==; (2) generated JSON documents (numbers in many spellings incl. beyond 2^64, strings with "
+             "\\u escapes and surrogate pairs, duplicate keys, nesting) fed to the release CLI through -i, stdin and two -i flags with `output x = inputs.x`; stdout is parsed by "
+             "Python and must equal the document (numbers as doubles); (3) `blots a | blots b` with `inputs.v .== inputs.w`. non-trivial = value has a non-integer double or a "
+             "non-ASCII / escaped string (1), every CLI document (2)"),
+    "min_nontrivial": {"quick": 300, "thorough": 300},
+    "assumptions": ["the reserved object form {\"__blots_function\": ...} is excluded by the statement", "Python's json is the reference JSON implementation"],
+}
